@@ -186,4 +186,88 @@ theorem transactFrames_inv {db : Db} {spec : Nat} {s : JState} {f : FirstFrame} 
     cases h
     exact firstFrame_inv h0 hf
 
+/-- the probe's account is loaded, warm, its code is cached and is not an EIP-7702 designator -/
+def Warm (db : Db) (s : JState) (a : Addr) : Prop :=
+  ∃ acc h, s.state a = some acc ∧ acc.cold = false ∧ acc.info.code = some h ∧ db.delegate h = none
+
+theorem setAcct_same {s : JState} {a : Addr} {acc : Acct} (h : s.state a = some acc) : setAcct s a acc = s := by
+  cases s
+  simp only [setAcct] at *
+  congr
+  funext x
+  split
+  · rename_i hx; subst hx; exact h.symm
+  · rfl
+
+theorem loadAccount_warm {db : Db} {s : JState} {a : Addr} {acc : Acct}
+    (h : s.state a = some acc) (hc : acc.cold = false) : loadAccount db s a = some (s, false) := by
+  have e : ({ acc with cold := false } : Acct) = acc := by cases acc; simp_all
+  simp only [loadAccount, h, hc, e, setAcct_same h]
+  rfl
+
+theorem loadCode_warm {db : Db} {s : JState} {a : Addr} {acc : Acct} {hh : Nat}
+    (h : s.state a = some acc) (hc : acc.cold = false) (hcode : acc.info.code = some hh) :
+    loadCode db s a = some (s, false) := by
+  simp [loadCode, loadAccount_warm h hc, h, hcode, bind]
+
+/-- plain call: apparent value, not a precompile, non-empty legacy code -/
+def plainCall (caller a : Addr) : CallInputs :=
+  { caller := caller, target := a, bytecodeAddr := a, value := .apparent 0, isExtDelegate := false }
+def plainOracle : CallOracle := { precompile := none, codeIsEof := false, codeIsEmpty := false }
+
+theorem checkpoint_state (s : JState) : (checkpoint s).1.state = s.state := rfl
+
+theorem makeCallFrame_plain {db : Db} {s : JState} {caller a : Addr}
+    (hw : Warm db s a) (hd : ¬ s.depth > CALL_STACK_LIMIT) :
+    makeCallFrame db s (plainCall caller a) plainOracle = some ((checkpoint s).1, .frame (checkpoint s).2) := by
+  obtain ⟨acc, hh, h1, h2, h3, h4⟩ := hw
+  have lc := loadCode_warm (db := db) h1 h2 h3
+  have lc2 : loadCode db (checkpoint s).1 a = some ((checkpoint s).1, false) :=
+    loadCode_warm (db := db) (s := (checkpoint s).1) h1 h2 h3
+  have h1' : (checkpoint s).1.state a = some acc := h1
+  simp [makeCallFrame, makeCallFrameCore, hd, loadAccountDelegated, lc, h1, h3, h4, bind, plainCall, plainOracle,
+    callValueStep, callTail, lc2, h1']
+
+theorem warm_checkpoint {db : Db} {s : JState} {a : Addr} (hw : Warm db s a) : Warm db (checkpoint s).1 a := hw
+
+
+theorem step_plain {db : Db} {spec : Nat} {l : Loop} {caller a : Addr}
+    (hw : Warm db l.js a) (hd : ¬ l.js.depth > CALL_STACK_LIMIT) :
+    step db spec l (.call (plainCall caller a) plainOracle) =
+      some (.running { js := (checkpoint l.js).1, stack := Frame.call (checkpoint l.js).2 :: l.stack }) := by
+  simp [step, makeCallFrame_plain hw hd, afterFrameOrResult]
+
+/-- from any loop state in which the probe's account is warm, `n` nested plain calls open `n` frames, as long
+as the limit allows -/
+theorem run_nest {db : Db} {spec : Nat} {caller a : Addr} : ∀ (n : Nat) (l : Loop), Inv l → Warm db l.js a →
+    l.stack.length + n ≤ CALL_STACK_LIMIT + 1 →
+    ∃ l', run db spec l (List.replicate n (.call (plainCall caller a) plainOracle)) = some (.running l') ∧
+      l'.stack.length = l.stack.length + n ∧ Warm db l'.js a ∧ Inv l' := by
+  intro n
+  induction n with
+  | zero => intro l hi hw _; exact ⟨l, rfl, rfl, hw, hi⟩
+  | succ n ih =>
+    intro l hi hw hle
+    have hd : ¬ l.js.depth > CALL_STACK_LIMIT := by rw [hi.1]; omega
+    have hs := step_plain (spec := spec) (caller := caller) hw hd
+    have hi1 := step_inv hi hs
+    obtain ⟨l', h1, h2, h3, h4⟩ := ih _ hi1 (warm_checkpoint hw) (by simp only [List.length_cons]; omega)
+    refine ⟨l', ?_, ?_, h3, h4⟩
+    · simp only [List.replicate_succ, run, hs]; exact h1
+    · rw [h2]; simp only [List.length_cons]; omega
+
+theorem run_append {db : Db} {spec : Nat} (p q : List Action) : ∀ (l l' : Loop),
+    run db spec l p = some (.running l') → run db spec l (p ++ q) = run db spec l' q := by
+  induction p with
+  | nil => intro l l' h; simp only [run] at h; cases h; rfl
+  | cons a rest ih =>
+    intro l l' h
+    simp only [run, List.cons_append] at h ⊢
+    split at h
+    · cases h
+    · rename_i l1 hs; exact ih _ _ h
+    · rename_i o hne hs
+      cases h
+      exact absurd rfl (hne l')
+
 end Revm.Proofs.Frame
